@@ -284,19 +284,38 @@ Proof.
         rewrite ITP. unfold tree_name. now rewrite NB.
 Qed.
 
-(* content and mode of that node *)
-Lemma node_content_new : forall t x k c,
-  aget x (new_contents t) = Some (k, c) -> node_content base t (true, x) = c.
-Proof. intros t x k c G. unfold node_content. simpl. now rewrite G. Qed.
-
-(* what get_file shows for a new versioned file whose change record says "content changed" *)
-Lemma preview_content_new : forall t x c f p,
-  aget x (new_contents t) = Some (KFile, c) ->
-  final_file_id base t x = Some f -> content_change base t f = true ->
-  preview_content base t x p = map Z.of_N (node_content base t (true, x)).
+(* content and executable bit: what get_file / is_executable show for a trans id that is a file in the
+   preview is exactly what the node apply leaves for it holds (no hypothesis: since 2ecf5bb the preview
+   reads limbo for new contents and the ORIGINAL tree at the OLD path otherwise, and _set_mode /
+   _set_executability give the installed node the same mode) *)
+Theorem content_exec_agree : forall t x,
+  final_kind base t x = Some KFile ->
+  exists n, tid_node base t x = Some n
+            /\ preview_content base t x = map Z.of_N (node_content base t n)
+            /\ preview_exec base t x = node_exec base t n.
 Proof.
-  intros t x c f p G F C. unfold preview_content. rewrite F, C, G.
-  now rewrite (node_content_new t x KFile c G).
+  intros t x FK. unfold final_kind in FK. unfold tid_node.
+  destruct (aget x (new_contents t)) as [[k c]|] eqn:G.
+  - injection FK as ->.
+    assert (ahas x (new_contents t) = true) as A by (unfold ahas; now rewrite G).
+    rewrite A. exists (true, x). split; [reflexivity|]. split.
+    + unfold preview_content, node_content. simpl. now rewrite G.
+    + unfold preview_exec, node_exec, tid_node. simpl. rewrite A.
+      destruct (aget x (new_exec t)) as [e|]; [|reflexivity].
+      unfold onat_eqb. simpl. now rewrite Nat.eqb_refl.
+  - assert (ahas x (new_contents t) = false) as A by (unfold ahas; now rewrite G).
+    rewrite A.
+    destruct (memn x (removed_contents t)) eqn:R; [discriminate|].
+    unfold tree_kind in FK.
+    destruct (nth_error base x) as [b|] eqn:NB; [|discriminate]. simpl in FK.
+    assert (x < List.length base) as XL by (apply nth_error_Some; now rewrite NB).
+    assert (is_tree base x = true) as IT by (unfold is_tree; now apply Nat.ltb_lt).
+    rewrite IT. exists (false, x). split; [reflexivity|]. split.
+    + unfold preview_content, node_content. simpl. rewrite G, R, NB.
+      injection FK as FK. now rewrite FK.
+    + unfold preview_exec, node_exec, tid_node. simpl. rewrite A, R, IT, NB.
+      destruct (aget x (new_exec t)) as [e|]; [|reflexivity].
+      unfold onat_eqb. simpl. now rewrite Nat.eqb_refl.
 Qed.
 End Apply.
 
@@ -344,6 +363,54 @@ Proof.
 Qed.
 End Inventory.
 
+(* ------------------------------------------------------------------ the OLD preview accessors (before 2ecf5bb)
+   kept only to document the repaired defect: get_file / is_executable looked the NEW path up in the OLD
+   tree when the change record said "content unchanged". *)
+Section OldPreview.
+Variable base : list bnode.
+Definition opath_eqb_old (a : option (list name)) (b : list name) : bool :=
+  match a with Some p => path_eqb p b | None => false end.
+Definition base_at_old (p : list name) : option bnode :=
+  match find (fun x => opath_eqb_old (base_path base x) p) (seq 0 (List.length base)) with
+  | Some x => nth_error base x
+  | None => None
+  end.
+Definition affected_old (t : tt) : list tid :=
+  filter (fun x => memn x (removed_id t) || ahas x (new_id t) || memn x (removed_contents t)
+                   || ahas x (new_contents t) || ahas x (new_exec t) || ahas x (new_name t)
+                   || ahas x (new_parent t)) (seq 0 (next_id t)).
+Definition content_change_old (t : tt) (f : fid) : bool :=
+  let from := find (fun x => onat_eqb (tree_file_id base x) (Some f)) (affected_old t) in
+  let to := find (fun x => onat_eqb (final_file_id base t x) (Some f)) (affected_old t) in
+  match from, to with
+  | None, None => false
+  | _, _ =>
+      let from' := match from with Some x => x | None => match to with Some y => y | None => 0 end end in
+      let to' := match to with Some y => y | None => from' end in
+      negb (okind_eqb (tree_kind base from') (final_kind base t to'))
+      || (okind_eqb (final_kind base t to') (Some KFile)
+          && (negb (Nat.eqb to' from') || ahas to' (new_contents t)))
+  end.
+Definition preview_content_old (t : tt) (y : tid) (p : list name) : list Z :=
+  if match final_file_id base t y with Some f => content_change_old t f | None => false end
+  then match aget y (new_contents t) with
+       | Some (KFile, c) => map Z.of_N c
+       | _ => unreadable
+       end
+  else match base_at_old p with
+       | Some b => match b_kind b with KFile => map Z.of_N (b_content b) | KDir => unreadable end
+       | None => unreadable
+       end.
+Definition preview_exec_old (t : tt) (y : tid) (p : list name) : bool :=
+  match aget y (new_exec t) with
+  | Some b => b
+  | None => match base_at_old p with
+            | Some b => match b_kind b with KFile => b_exec b | KDir => false end
+            | None => false
+            end
+  end.
+End OldPreview.
+
 (* ------------------------------------------------------------------ witnesses *)
 Definition w_base : list bnode :=
   [root_node;
@@ -357,8 +424,12 @@ Definition w_swap : list op := [OAdjust [98]%N 0 1; OAdjust [97]%N 0 4].
 Definition w_replace : list op := [ODelete 2; OCreateDir 2].
 (* two new directories, each the parent of the other *)
 Definition w_loop : list op := [ONewDir [112]%N 0 (Some 10); ONewDir [113]%N 5 (Some 11); OAdjust [112]%N 6 5].
-(* a versioned file in a new unversioned directory *)
+(* a versioned file in a new unversioned directory (ValueError before 4df7934, resolved since) *)
 Definition w_unv : list op := [ONewDir [112]%N 0 None; ONewFile [102]%N 5 [70]%N (Some 12) None].
+(* the same inside a parent loop: the fabricated id needs the final path *)
+Definition w_unv_loop : list op := [ONewDir [112]%N 0 None; ONewDir [113]%N 5 (Some 11); OAdjust [112]%N 6 5].
+(* a child below a file that was versioned in this transform *)
+Definition w_dupkey : list op := [ONewFile [107]%N 0 [75]%N (Some 14) None; ONewFile [99]%N 5 [67]%N (Some 15) None].
 (* a duplicate name, resolved by "Moved existing file to" *)
 Definition w_dup : list op := [ONewFile [97]%N 0 [78]%N (Some 13) None].
 (* nothing but conflicts that have no resolver *)
